@@ -107,6 +107,11 @@ inductive Val where
   | map (kvs : List (String × Val))
   | macro (name : String) (params : List String) (defaults : List Expr) (body : List Stmt)
       (usesCaller : Bool) (env : List Nat)
+  -- the remaining constructors only occur in the VM model (`MJ/Model/VmM.lean`): a compiled macro
+  -- (code offset + closure id), a keyword-argument bundle, a live reference to a loop object
+  | vmMacro (name : String) (argSpec : List String) (offset : Nat) (closure : Option Nat) (callerRef : Bool)
+  | kwargs (kvs : List (String × Val))
+  | loopObj (id : Nat)
   deriving Repr, Inhabited
 
 abbrev Scope := List (String × Val)
@@ -137,6 +142,9 @@ def truthy : Val → Bool
   | .list xs => !xs.isEmpty
   | .map kvs => !kvs.isEmpty
   | .macro .. => true
+  | .vmMacro .. => true
+  | .kwargs kvs => !kvs.isEmpty
+  | .loopObj _ => true
 
 def assocGet {α : Type} (k : String) : List (String × α) → Option α
   | [] => none
@@ -188,6 +196,9 @@ mutual
     | .list xs => "[" ++ reprList xs ++ "]"
     | .map kvs => "{" ++ reprPairs kvs ++ "}"
     | .macro name .. => "<macro " ++ name ++ ">"
+    | .vmMacro name .. => "<macro " ++ name ++ ">"
+    | .kwargs kvs => "{" ++ reprPairs kvs ++ "}"
+    | .loopObj _ => "<loop>"
   def reprList : List Val → String
     | [] => ""
     | [x] => reprVal x
@@ -207,7 +218,7 @@ def render : Val → String
 /-- kind rank of the implementation's `ValueKind` -/
 def kindRank : Val → Nat
   | .undef => 0 | .none => 1 | .bool _ => 2 | .int _ => 3 | .str _ => 4
-  | .list _ => 6 | .map _ => 7 | .macro .. => 9
+  | .list _ => 6 | .map _ => 7 | .macro .. => 9 | .vmMacro .. => 9 | .kwargs _ => 7 | .loopObj _ => 7
 
 def asInt? : Val → Option Int
   | .int i => some i
@@ -792,7 +803,10 @@ def exec : Nat → Scope → List Nat → State → Stmt → Res (State × Flow)
       let xs ← iterate v
       let kept ← match filter with
         | none => .ok xs
-        | some cond => filterItems fuel ctx σ.heap stack target cond xs
+        | some cond => do
+          -- the engine counts the items that pass with checked `i128` arithmetic
+          let ks ← filterItems fuel ctx σ.heap stack target cond xs
+          if (ks.length : Int) ≤ i128Max then .ok ks else .error .invalidOp
       -- a filtered loop walks the list of the items that passed
       let sized := match filter with
         | none => isSized v
